@@ -647,3 +647,95 @@ CONTRACTS += [
     Contract('control.case_stmt', PROPS, ['qbee.qvm_codegen:gen_case_stmt', 'qbee.qvm_codegen:gen_case_else_stmt'], body_case_stmt,
              cases=[(n,) for n in (0, 1, 2, 3)]),
 ]
+
+
+# ------------------------------------------------------------------ EXIT DO / EXIT FOR
+
+class NestGen(TGen):
+    """like TGen, but nested DO / FOR blocks and EXIT statements are generated by the real generators"""
+
+    def __init__(self, h):
+        super().__init__()
+        self.h = h
+        self.failed = None
+
+    def gen_code_for_node(self, node, code):
+        real = {stmt.LoopBlock: qvm_codegen.gen_loop, stmt.ForBlock: qvm_codegen.gen_for_block,
+                stmt.ExitDoStmt: qvm_codegen.gen_exit_do, stmt.ExitForStmt: qvm_codegen.gen_exit_for}.get(type(node))
+        if real is None:
+            return TGen.gen_code_for_node(self, node, code)
+        out = self.h.call(real, node, code, self)
+        if not out.returned and self.failed is None:
+            self.failed = out
+
+
+def _forever(body):
+    n = object.__new__(stmt.LoopBlock)
+    n.kind, n.cond, n.body, n.parent = 'forever', None, body, None
+    return n
+
+
+def _for(body):
+    qt = TYPES['INTEGER'][1]
+    n = object.__new__(stmt.ForBlock)
+    n.var = _ForVar(qt, _Var('i', False))
+    mk = lambda k: (lambda s: (setattr(s, 'k', k), s)[1])(_LvStub(qt))
+    n.step_expr = None
+    n.from_expr, n.to_expr = mk('from'), mk('to')
+    n.body = body
+    n._parent_routine = _Routine()
+    n.parent = None
+    return n
+
+
+def body_exit(h, nest):
+    """EXIT DO / EXIT FOR leave exactly the innermost enclosing block of their kind, whatever other blocks lie between;
+    control continues right behind that block with the operand stack as at its entry"""
+    ex_do = object.__new__(stmt.ExitDoStmt)
+    ex_for = object.__new__(stmt.ExitForStmt)
+    for e in (ex_do, ex_for):
+        e.parent = None
+    # the statement behind the block that is left is the marker we must reach
+    if nest == 'do{exit do}':
+        tree = [_forever([Body('b'), ex_do, Body('dead')]), Body('after')]
+    elif nest == 'do{do{exit do}x}':
+        tree = [_forever([_forever([ex_do, Body('dead')]), Body('after'), Body('stop')])]
+    elif nest == 'do{for{exit do}}':
+        tree = [_forever([_for([ex_do, Body('dead')]), Body('dead2')]), Body('after')]
+    elif nest == 'for{do{exit for}}':
+        tree = [_for([_forever([ex_for, Body('dead')]), Body('dead2')]), Body('after')]
+    elif nest == 'for{exit for}':
+        tree = [_for([Body('b'), ex_for, Body('dead')]), Body('after')]
+    elif nest == 'for{for{exit for}x}':
+        tree = [_for([_for([ex_for, Body('dead')]), Body('after'), Body('stop')])]
+    code = QvmCode()
+    g = NestGen(h)
+    for n in tree:
+        g.gen_code_for_node(n, code)
+    if g.failed is not None:
+        h.prove('generator.no_exception', False, detail=repr(g.failed))
+        return
+    h.prove('block_contexts_popped', g.cur_blocks == [])
+    m = MachineV(h, code._instrs, CT.INTEGER)
+    seen = []
+    for _ in range(12):
+        r = m.run()
+        if r[0] != 'child':
+            break
+        k = r[1]
+        seen.append(k)
+        if k in ('from', 'to'):
+            # FOR bounds: 1 TO 5, so that the loop is entered
+            m.push(lcell_int(1 if k == 'from' else 5))
+        elif k == 'after':
+            break
+    h.prove('no_dead_statement_reached', not any(str(k).startswith('dead') for k in seen), detail=repr(seen))
+    h.prove('continues_behind_the_block_left', bool(seen) and seen[-1] == 'after', detail=repr((seen, r)))
+    m.depth_is_entry('stack_behind_the_block')
+
+
+CONTRACTS += [
+    Contract('control.exit', PROPS, ['qbee.qvm_codegen:gen_exit_do', 'qbee.qvm_codegen:gen_exit_for', 'qbee.qvm_codegen:gen_loop',
+                                     'qbee.qvm_codegen:gen_for_block'], body_exit,
+             cases=[(n,) for n in ('do{exit do}', 'do{do{exit do}x}', 'do{for{exit do}}', 'for{do{exit for}}', 'for{exit for}', 'for{for{exit for}x}')]),
+]
